@@ -27,6 +27,7 @@ var c07WorkFamilies = []string{
 	"genbank-features", "genbank-records", "genbank-references", "fasta-records", "fasta-long-description",
 	"genbank-origin-lf", "genbank-origin-crlf", "genbank-comment-lines", "genbank-keywords", "genbank-dblink", "genbank-definition-lines",
 	"genbank-contig-parts", "fasta-long-residues", "fasta-crlf", "table-order-of-complements", "loc-join-sites",
+	"loc-join-of-joins", "loc-order-of-joins", "loc-join-of-orders", "loc-join-of-complement-joins", "loc-join-abutting", "loc-join-complement-run", "loc-complement-join",
 }
 
 func WorkInput(family string, n int) []byte {
@@ -56,6 +57,51 @@ func WorkInput(family string, n int) []byte {
 		sb.WriteString(")")
 	case "loc-nested-complement":
 		sb.WriteString(strings.Repeat("complement(", n) + "1..2" + strings.Repeat(")", n))
+	case "loc-join-of-joins", "loc-order-of-joins", "loc-join-of-orders", "loc-join-of-complement-joins":
+		// a wide list whose parts are themselves short lists
+		outer := map[string]string{"loc-join-of-joins": "join(", "loc-order-of-joins": "order(", "loc-join-of-orders": "join(", "loc-join-of-complement-joins": "join("}[family]
+		inner := map[string]string{"loc-join-of-joins": "join(", "loc-order-of-joins": "join(", "loc-join-of-orders": "order(", "loc-join-of-complement-joins": "complement(join("}[family]
+		sb.WriteString(outer)
+		for i := 0; i < n; i++ {
+			if i > 0 {
+				sb.WriteString(",")
+			}
+			fmt.Fprintf(&sb, "%s%d..%d,%d..%d)", inner, 6*i+1, 6*i+2, 6*i+4, 6*i+5)
+			if strings.HasPrefix(inner, "complement(") {
+				sb.WriteString(")")
+			}
+		}
+		sb.WriteString(")")
+	case "loc-join-complement-run", "loc-complement-join":
+		// the two spellings of a complement-strand feature with n exons: join(complement(a),complement(b),...) and complement(join(...))
+		if family == "loc-complement-join" {
+			sb.WriteString("complement(")
+		}
+		sb.WriteString("join(")
+		for i := 0; i < n; i++ {
+			if i > 0 {
+				sb.WriteString(",")
+			}
+			if family == "loc-complement-join" {
+				fmt.Fprintf(&sb, "%d..%d", 3*i+1, 3*i+2)
+			} else {
+				fmt.Fprintf(&sb, "complement(%d..%d)", 3*i+1, 3*i+2)
+			}
+		}
+		sb.WriteString(")")
+		if family == "loc-complement-join" {
+			sb.WriteString(")")
+		}
+	case "loc-join-abutting":
+		// every part abuts the one before it: the list keeps reducing to one range
+		sb.WriteString("join(")
+		for i := 0; i < n; i++ {
+			if i > 0 {
+				sb.WriteString(",")
+			}
+			fmt.Fprintf(&sb, "%d..%d", 2*i+1, 2*i+2)
+		}
+		sb.WriteString(")")
 	case "loc-nested-join":
 		sb.WriteString(strings.Repeat("join(1,", n) + "3" + strings.Repeat(")", n))
 	case "loc-long-number":
